@@ -244,6 +244,22 @@ def run(chk):
                 if len([d for d in chk.disagreements if d['op'] == op]) < 5:
                     chk.disagreements.append({'op': op, 'line': l, 'impl': repr(r), 'model': m, 'case': c02h.obj_of(a, kw)})
 
+    pc = [c for c in cases if c[0]._static_mods is not None][:400 if tier == 'quick' else 8000]
+    outs = chk.driver(DRV, [cm.line('comp_mass', a, kw, concrete_rules=True) for a, kw in pc])
+    st = chk.corr.setdefault('comp_mass_concrete_rule_parser', {'evaluations': 0, 'disagreements': 0, 'samples': [], 'unmodelled': 0})
+    for (a, kw), m in zip(pc, outs):
+        if m == 'ERR:unmodelled':
+            st['unmodelled'] += 1
+            continue
+        r = comp_call(pt.comp_mass, a, kw)
+        st['evaluations'] += 1
+        chk.evaluations += 1
+        if not cmp_comp_mass(r, m):
+            st['disagreements'] += 1
+            if len([d for d in chk.disagreements if d['op'] == 'comp_mass_concrete_rule_parser']) < 5:
+                chk.disagreements.append({'op': 'comp_mass_concrete_rule_parser', 'line': annot.dump(a), 'impl': repr(r), 'model': m,
+                                          'case': c02h.obj_of(a, kw)})
+
     sel = cases[::2]
     lines = [cm.line('comp', a, kw, prefix=(str(int(i % 3 != 0)),)) for i, (a, kw) in enumerate(sel)]
     outs = chk.driver(DRV, lines)
